@@ -18,7 +18,7 @@ type memberFact struct {
 	mexpr   string
 	key     string
 	present bool
-	via     string // if | early-exit | range-key | range-value-id
+	via     string     // if | early-exit | range-key | range-value-id
 	mt      types.Type // type of the map expression (the map may be a field of a struct parameter)
 }
 
